@@ -275,7 +275,12 @@ func c05Compare(ref *refbx.Result, b *bundle.Bundle) string {
 			return fmt.Sprintf("exchange %d URL %q, file has %q", i, g.Request.URL, w.url)
 		}
 		// (the status pseudo header is three digits; "000" and "007" denote 0 and 7)
-		if ws, err := strconv.Atoi(w.r.Status); err != nil || len(w.r.Status) != 3 || g.Response.Status != ws {
+		// ':status' is exactly three ASCII digits (strconv.Atoi alone would let "+20" or "-20" through)
+		threeDigits := len(w.r.Status) == 3
+		for _, ch := range []byte(w.r.Status) {
+			threeDigits = threeDigits && ch >= '0' && ch <= '9'
+		}
+		if ws, err := strconv.Atoi(w.r.Status); err != nil || !threeDigits || g.Response.Status != ws {
 			return fmt.Sprintf("exchange %d status %d, file has %q", i, g.Response.Status, w.r.Status)
 		}
 		if !bytes.Equal(g.Response.Body, w.r.Body) {
@@ -443,7 +448,7 @@ func init() {
 			return &c05Case{input: file[:off], base: base, op: fmt.Sprintf("truncate@%d", off)}
 		case 3: // every byte set to a chosen value
 			off := c.Free(len(file), "offset")
-			vals := []byte{0x00, 0xff, file[off] ^ 0x01, file[off] ^ 0x80, file[off] + 1}
+			vals := []byte{0x00, 0xff, file[off] ^ 0x01, file[off] ^ 0x80, file[off] + 1, '+', '-', ' '}
 			var nv byte
 			if c.Quick() {
 				nv = vals[c.Free(len(vals), "value")]
@@ -646,7 +651,7 @@ func init() {
 	register(&mc.Property{
 		ID:          "C05",
 		Level:       "model_checking",
-		Rule:        "choice-tree enumeration of inputs to bundle.Read in watchdog-supervised workers: 6 (quick) / 8 (thorough) base bundles built by the reference encoder (b1/b2, 1-3 exchanges, primary/manifest/signatures sections, a b1 variants entry, two with the sections in an order the repository's writer never produces: manifest ahead of index in a b2 bundle, signatures/manifest ahead of index in b1) x one structure-aware mutation: every length/offset/count head of the reference's field map replaced by each of 9 boundary values (0, exact+-1, file size, 2^32, 2^63-1, 2^63, 2^64-1, exact+2^63; thorough: pairs of fields), truncation at every offset, every byte set to 5 values (quick) / all 256 (thorough), offset/length pairs whose sum wraps around 2^64, an unknown section inserted consistently at every position (must be stepped over), the section table permuted / an entry duplicated / dropped, an unknown section listed without content. Oracle: refbx.Extract (location-strict, encoding-lenient). Non-trivial = the reference produced a verdict the reader had to match (content equality, must-refuse location, must-accept unknown section); distinct by input hash.",
+		Rule:        "choice-tree enumeration of inputs to bundle.Read in watchdog-supervised workers: 6 (quick) / 8 (thorough) base bundles built by the reference encoder (b1/b2, 1-3 exchanges, primary/manifest/signatures sections, a b1 variants entry, two with the sections in an order the repository's writer never produces: manifest ahead of index in a b2 bundle, signatures/manifest ahead of index in b1) x one structure-aware mutation: every length/offset/count head of the reference's field map replaced by each of 9 boundary values (0, exact+-1, file size, 2^32, 2^63-1, 2^63, 2^64-1, exact+2^63; thorough: pairs of fields), truncation at every offset, every byte set to 8 values (quick: 00, ff, two bit flips, +1, '+', '-', space) / all 256 (thorough), offset/length pairs whose sum wraps around 2^64, an unknown section inserted consistently at every position (must be stepped over), the section table permuted / an entry duplicated / dropped, an unknown section listed without content. Oracle: refbx.Extract (location-strict, encoding-lenient). Non-trivial = the reference produced a verdict the reader had to match (content equality, must-refuse location, must-accept unknown section); distinct by input hash.",
 		Assumptions: []string{"refbx extracts at least what bundle.Read accepts (any well-formed CBOR head, any key order) and is exact about locations", "inputs the reference can extract but the reader refuses for its own stricter rules (URL syntax, header-name case, ASCII) are not judged", "header maps with duplicate names are not judged (the property does not say which value a reader returns)"},
 		Harnesses:   []*mc.Harness{h},
 		Guard: func(s map[string]*mc.Stats) error {
